@@ -1018,12 +1018,12 @@ package scipipe
 //@   atgo scipipe.WorkflowProcess.Run not-the-driver[C04]: $arg0 != wf.driver
 //@   atcall scipipe.WorkflowProcess.Run ready-before-start[C16]: forall k string :: k in procs ==> sawReady[procs[k]]
 //@   atcall scipipe.WorkflowProcess.Run is-the-driver[C04]: $arg0 == wf.driver
-//@   atcall scipipe.WorkflowProcess.Run driver-not-spawned[C04]: spawned[wf.driver] == old(spawned[wf.driver])
-//@   atcall scipipe.WorkflowProcess.Run each-started-once[C04,C16]: forall k string :: k in procs && procs[k] != wf.driver ==> spawned[procs[k]] == old(spawned[procs[k]]) + 1
-//@   atcall scipipe.WorkflowProcess.Run only-run-set-started[C16]: forall p ref :: spawned[p] != old(spawned[p]) ==> exists k string :: k in procs && procs[k] == p
+//@   atcall scipipe.WorkflowProcess.Run driver-not-spawned[C04]: spawned[wf.driver] == old(spawned)[wf.driver]
+//@   atcall scipipe.WorkflowProcess.Run each-started-once[C04,C16]: forall k string :: k in procs && procs[k] != wf.driver ==> spawned[procs[k]] == old(spawned)[procs[k]] + 1
+//@   atcall scipipe.WorkflowProcess.Run only-run-set-started[C16]: forall p ref :: spawned[p] != old(spawned)[p] ==> exists k string :: k in procs && procs[k] == p
 //@   loop 0 invariant vis: forall k string :: $visited[k] ==> k in procs
-//@   loop 0 invariant started: forall k string :: $visited[k] && procs[k] != wf.driver ==> spawned[procs[k]] == old(spawned[procs[k]]) + 1
-//@   loop 0 invariant not-yet: forall p ref :: (p == wf.driver || !(exists k string :: $visited[k] && procs[k] == p)) ==> spawned[p] == old(spawned[p])
+//@   loop 0 invariant started: forall k string :: $visited[k] && procs[k] != wf.driver ==> spawned[procs[k]] == old(spawned)[procs[k]] + 1
+//@   loop 0 invariant not-yet: forall p ref :: (p == wf.driver || !(exists k string :: $visited[k] && procs[k] == p)) ==> spawned[p] == old(spawned)[p]
 
 //@ func (*Workflow).Proc(wf, procName) (res)
 //@   props C16
